@@ -7,7 +7,10 @@ import tempfile
 from .. import common, gen
 from . import seqprop
 
-GEN = ["JsonUtilGen.v"]
+GEN = ['JsonUtilGen.v', 'Decisions.v', 'Order.v']
+DECISIONS = ['Cache.read_immutable', 'FileBuilder.build_versioned', 'FileBuilder.clean']
+SITES = False
+ORDER = True
 KINDS = ["truncate", "notgzip", "empty", "nonjson", "wrongshape", "othersoftware", "newerversion"]
 
 
